@@ -18,7 +18,7 @@ VERIF = os.path.dirname(os.path.dirname(os.path.abspath(__file__)))
 DRIVER = os.path.join(VERIF, 'driver', 'instantiate.cpp')
 CACHE = os.path.join(VERIF, '.cache')
 MPI_INC = '/usr/lib/x86_64-linux-gnu/openmpi/include'
-CACHE_VERSION = 13
+CACHE_VERSION = 14
 
 
 class AnalysisBroken(Exception):
@@ -260,6 +260,7 @@ class Program:
         self.goto_sites = []
         self.engine_desugared = None
         self._rec_by_key = None
+        self.globals = []
 
     # ----- lookup helpers -------------------------------------------------------------------
     def find(self, base, inst=True, body=True):
@@ -501,6 +502,12 @@ class Builder:
             for c in o.get('inner', ()):
                 if c.get('kind') == 'EnumConstantDecl':
                     self.p.hep_ids.add(c.get('id'))
+        elif kind == 'VarDecl':
+            t = tyof(o) or ''
+            self.p.globals.append({'name': scope + '::' + str(o.get('name')), 'type': t,
+                                   'const': t.strip().startswith('const') or 'constexpr' in str(o.get('constexpr', '')) or bool(o.get('constexpr')),
+                                   'loc': o.get('_loc')})
+            self.p.hep_ids.add(o.get('id'))
         elif kind == 'NamespaceDecl':
             for c in o.get('inner', ()):
                 self.decl(c, scope + '::' + str(o.get('name')), pattern)
